@@ -351,28 +351,40 @@ class C11(Suite):
     id = "C11"
     props_module = "Cpppo.Props.C11"
     extra_modules = ["Cpppo.Proofs.Regex", "Cpppo.Proofs.Rx", "Cpppo.Proofs.Bisim"]
-    rule = ("all expression trees up to a size bound over {a,b} (literals, classes, negated classes, '.', "
-            "'|', grouping, '*', '+', '?', '{m,n}') x all strings over {a,b} up to a length bound, each also "
-            "with an unnamed follower symbol; kind (regex/regex_bytes/string/string_bytes), greedy flag, own "
-            "terminal flag and chunking rotate over the pairs; the same for expressions naming one multi-byte "
-            "symbol (é or €) over the alphabet {a,é,€}; seeded random larger expressions and strings, raw "
-            "(not UTF-8) byte strings for ASCII expressions, non-sentences, empty chunks.  One rx.lang case "
-            "per expression validates greenery's fsm against the Lean derivative semantics on all strings up "
-            "to a bound; rx.spec cases compare the real machine with the Lean specification run directly.  "
-            "non-trivial = a run case whose input makes the machine consume at least one symbol and either "
-            "stop before the end of the input or end in a non-accepting state or cross a chunk boundary; "
-            "distinct by (kind, expression, input, chunking)")
+    rule = ("all expression trees up to a size bound over {a,b} (literals, classes, negated classes, '.', '|', "
+            "grouping, '*', '+', '?', '{m,n}'; quick: size <= 3, thorough: size <= 4 plus 1000 sampled of size 5) x "
+            "all strings over {a,b} up to a length bound (quick 4, thorough 5-6), each also with an unnamed "
+            "follower; kind (regex / regex_bytes / string / string_bytes) and chunking (whole, per symbol, "
+            "split, delivered on request) rotate over the pairs, greedy / own terminal / decode= over the "
+            "expressions; the same for expressions naming one multi-byte symbol (é: 2 bytes, €: 3 bytes) over "
+            "texts {a,b,that symbol} (texts using the other multi-byte character lie outside the byte-machine "
+            "hypothesis: compared with the model only); expressions naming two multi-byte symbols (refusal); 16 "
+            "hand-written shapes; listed probes; seeded random larger expressions with sentences cut / extended "
+            "/ spoilt, raw non-UTF-8 bytes for ASCII expressions, empty chunks.  One rx.lang case per expression "
+            "validates greenery's fsm against the expression tree (exactly, by a checked bisimulation "
+            "certificate, in the exhaustive scopes; on all strings up to a bound for the random ones); rx.spec "
+            "cases compare the real machine with the Lean specification run; rx.utf8 the encoder.  non-trivial "
+            "= an oracle-checked run that consumes at least one symbol and stops before the end of the input, or "
+            "ends non-accepting, or crosses a chunk boundary; distinct by (kind, expression, input, chunking)")
     assumptions = [
-        "expressions are in the generated syntax; greenery's parse of the printed string is validated per "
-        "expression against the tree (rx.lang) on all strings up to a bound, not proved",
-        "byte machines: the character reading is demanded when every character of the text is named in the "
-        "expression or is a single byte (hypothesis of utf8_simulation_partial); otherwise the outcome must "
-        "match the character reading or the documented byte reading ('.'/negated class = one byte)",
-        "an empty chunk is a no-progress event and counts as the end of the input (framework convention)",
+        "expressions are in the generated syntax; that the printed string means the tree is cross-checked "
+        "(Python re on every oracle verdict, rx.spec against the real machine), not proved",
+        "greenery's fsm is validated per tested expression (rx.lang); expressions in the known greenery defect "
+        "class (its unsimplified and simplified parse differ in language, e.g. (aa+)? -> a*) are outside the "
+        "hypothesis of regex_machine_correct: their runs are compared with the model only, two instances are "
+        "listed as known findings",
+        "byte machines: the character reading is demanded when every character of the text is named by the "
+        "machine's alphabet or is a single byte (Utf8Dom, hypothesis of utf8_simulation_partial); outside it "
+        "(listed probes) the outcome must match the character reading or the documented byte reading ('.' / a "
+        "negated class = one byte)",
+        "an empty chunk delivered in answer to a request for input is a no-progress event and counts as the end "
+        "of the input (framework convention)",
+        "the model is of the code after fixes/C11-regex-bytes-dead-edge.patch and "
+        "fixes/C11-regex-bytes-chain-state-key.patch; C11_VARIANT=0 compares the unrepaired code with Variant.old",
         "the limit= feature is property C10's subject and is not used here",
     ]
-    trusted_extra = ["greenery (regex -> fsm): validated per tested expression against the Lean derivative "
-                     "semantics on all strings up to a bound (rx.lang), not trusted beyond that",
+    trusted_extra = ["greenery (regex -> fsm): not trusted - its fsm is checked per tested expression against the "
+                     "Lean semantics of the expression tree (bisimulation certificate / bounded comparison)",
                      "Mathlib.Computability.RegularExpressions / Language (the reference semantics)"]
     # the model variant compared with the code: "1" = after fixes/C11-*.patch (what the theorems are about);
     # C11_VARIANT=0 compares the unrepaired code with the `Variant.old` model (used to validate the witnesses)
@@ -469,7 +481,11 @@ class C11(Suite):
         short = list(strings_upto([A, B], 4))
         longer = [w for w in strings_upto([A, B], 6) if len(w) == 6]
         for ti, tree in enumerate(trees):
-            yield {"op": "lang", "rx": tree, "bound": 5 if quick else 6}
+            # exact: `ok` requires a bisimulation certificate; the sampled size-5 expressions with deeply nested
+            # bounded repetitions (fsm of 50+ states, derivatives of thousands of nodes) may exhaust the search
+            # budget: there the bounded comparison suffices
+            yield {"op": "lang", "rx": tree, "bound": 5 if quick else 6,
+                   "exact": 1 if rx_size(tree) <= 4 or (rx_expanded(tree) <= 16 and rx_fanout(tree) <= 4) else 0}
             if quick or rx_size(tree) <= 3:
                 ws = words if quick else words + longer   # thorough: all strings up to length 6
             else:
